@@ -153,7 +153,7 @@ Qed.
 
 Section Declared.
   Variable pe : str -> option Conv.evr.
-  Variable ex : str -> str.
+  Variable ex : str -> option str.
 
   (* every object of a scope that is not a hidden template (is_template < 0) gives the extracted node an attribute of
      its name - a disabled object or a visible template too (value None, or an empty list for .multiple) *)
